@@ -33,6 +33,14 @@ double vf_paramf(const char * n) { return std::strtod(lookup(n).c_str(), nullptr
 double vf_angle(const char * n, double, double) { return vf_f64(n); }
 double vf_pi() { return M_PI; }
 int64_t vf_enum(int64_t v) { return v; }
+bool vf_symbolic() { return false; }
+bool vf_near(double a, double b, double tol)
+{
+  double m = std::fmax(1.0, std::fmax(std::fabs(a), std::fabs(b)));
+  return std::fabs(a - b) <= tol * m;
+}
+bool vf_angle_eq(double a, double b) { return std::fabs(a - b) <= 1e-9; }
+bool vf_angle_congruent(double a, double b) { return std::fabs(std::remainder(a - b, 2 * M_PI)) <= 1e-9; }
 bool vf_eq(double a, double b)
 {
   double m = std::fmax(1.0, std::fmax(std::fabs(a), std::fabs(b)));
